@@ -45,3 +45,7 @@ where
         Ordering::Equal
     }
 }
+
+#[cfg(kani)]
+#[path = "/verif/kani/rosomaxa/objectives_proofs.rs"]
+mod verif_kani_proofs;
